@@ -61,6 +61,10 @@ EXTRA_SNIPPETS = [
     ("never_variable_dc", "    from dataclasses import dataclass\n    @dataclass\n    class NV:\n        a: int\n    x = NV(1)\n    s = snapshot(x)"),
     ("never_variable_nt", "    from collections import namedtuple\n    NT = namedtuple('NT', 'a b')\n    rows = [NT(1, 2)]\n    s = snapshot(rows[0])"),
     ("never_variable_list", "    x = [1, {'k': (2, 3)}]\n    s = snapshot(x)"),
+    # elements wrapped in parentheses that span several lines / hold a comment (the usual layout of implicit string concatenation), next to an element that is deleted
+    ("paren_multiline_list", "    assert [1, 3] == snapshot([\n        (\n            1\n        ),\n        2,\n        (  # why\n            3),\n    ])"),
+    ("paren_multiline_dict", "    assert {'a': 'xy'} == snapshot({\n        'a': (\n            'x'\n            'y'\n        ),\n        'b': 2,\n    })"),
+    ("paren_multiline_call", "    from dataclasses import dataclass\n    @dataclass\n    class PM:\n        a: str\n        b: int = 0\n    assert PM(a='xy') == snapshot(PM(\n        a=(\n            'x'  # first\n            'y'\n        ),\n        b=2,\n    ))"),
     # containers holding a star-expression evaluated several times, and used with `in`
     ("star_loop", "    extra = [1, 2]\n    for _ in (1, 2):\n        assert [1, 2, 3] == snapshot([*extra, 3])"),
     ("star_in", "    extra = [1, 2]\n    try:\n        assert 5 in snapshot([*extra, 3])\n    except AssertionError:\n        pass"),
@@ -203,6 +207,15 @@ def run(ctx: Ctx):
         elif o["syntax"]:
             ctx.report(f"Example.run_inline({fl}) wrote an invalid file: {o['syntax']}", {"kind": "example", "source": src, "flags": fl, "after": o["after"]})
     ctx.coverage["oracle"]["example_run_inline_cases"] = len(EXAMPLE_CORPUS)
+    # snapshots inside doctests (the documentation of snapshot() itself is written like this): the session finishes
+    for fl, o in zip(DOCTEST_FLAGS, tmap(run_doctest_session, DOCTEST_FLAGS)):
+        ctx.count(("doctest", tuple(fl)), True)
+        if o.get("infra"):
+            continue
+        if o["internal"] or o["rc"] not in (0, 1):
+            ctx.report(f"C18 oracle: a session with --doctest-modules (flags {fl}) over a module whose doctests use snapshot() ended with an internal error / exit status {o['rc']}",
+                       {"kind": "doctest", "flags": fl, "output": o["tail"]})
+    ctx.coverage["oracle"]["doctest_sessions"] = len(DOCTEST_FLAGS)
     # real sessions
     m = 64 if not ctx.thorough else 800
     items = []
@@ -244,6 +257,22 @@ def run(ctx: Ctx):
     twins.check(ctx, "C18", [NESTED] + [s_ for s_, _ in items[:2 if not ctx.thorough else 12]])
 
 
+DOCTEST_SRC = ("from inline_snapshot import snapshot\n\n\ndef double(x):\n    \"\"\"\n    >>> from inline_snapshot import snapshot\n    >>> assert double(2) == snapshot(4)\n"
+               "    >>> assert double(3) == snapshot(5)\n    >>> double(1) <= snapshot(9)\n    True\n    \"\"\"\n    return 2 * x\n\n\ndef test_a():\n    assert double(4) == snapshot(7)\n")
+DOCTEST_FLAGS = [[], ["fix"], ["create", "fix", "trim", "update"], ["report"]]
+
+
+def run_doctest_session(fl):
+    d = driver.scratch_dir()
+    try:
+        driver.write_project(d, {"calc.py": DOCTEST_SRC, "test_calc.py": "from calc import test_a  # noqa\n"})
+        r = driver.run_pytest(d, (["--inline-snapshot=" + ",".join(fl)] if fl else []) + ["--doctest-modules", "calc.py", "test_calc.py"])
+        out = r["stdout"] + r["stderr"]
+        return {"rc": r["rc"], "internal": "INTERNALERROR" in out or "Traceback (most recent call last)" in r["stderr"], "tail": out[-1500:], "infra": r.get("infra_error")}
+    finally:
+        shutil.rmtree(d, ignore_errors=True)
+
+
 _EH = "from dataclasses import dataclass\nfrom inline_snapshot import snapshot\n\n\n@dataclass\nclass DC:\n    a: int\n    b: int = 0\n    c: int = 0\n\n\n"
 EXAMPLE_CORPUS = [
     (_EH + "def test_a():\n    for x in (1, 5):\n        assert x in snapshot(\n            [\n                1,\n                2,\n            ]\n        )\n", ["fix", "trim"]),
@@ -276,6 +305,10 @@ def run_example(item):
 
 
 def replay(ctx: Ctx, data):
+    if isinstance(data.get("case"), dict) and data["case"].get("kind") == "doctest":
+        o = run_doctest_session(data["case"]["flags"])
+        print(o["tail"])
+        return not (o["internal"] or o["rc"] not in (0, 1))
     if isinstance(data.get("case"), dict) and data["case"].get("kind") == "example":
         o = run_example((data["case"]["source"], data["case"]["flags"]))
         print(o)
